@@ -299,15 +299,20 @@ SEGS = {'end': ('variant', 'None', ()),
         '#': ('variant', 'Some', (('variant', 'MultiWildcard', ()),))}
 
 
-def _pm_cond(e, env):
+def _pm_cond(e, env, lets=None):
+    lets = lets or {}
     k = e.get('k')
+    if k == 'block' and not e.get('stmts') and 'tail' in e:
+        return _pm_cond(e['tail'], env, lets)
+    if k == 'path' and e.get('res') == 'local' and e.get('id') in lets:
+        return _pm_cond(lets[e['id']], env, lets)
     if k == 'binary' and e['op'] in ('And', 'Or'):
-        l = _pm_cond(e['l'], env)
+        l = _pm_cond(e['l'], env, lets)
         if e['op'] == 'And':
-            return l and _pm_cond(e['r'], env)
-        return l or _pm_cond(e['r'], env)
+            return l and _pm_cond(e['r'], env, lets)
+        return l or _pm_cond(e['r'], env, lets)
     if k == 'unary' and e['op'] == 'Not':
-        return not _pm_cond(e['e'], env)
+        return not _pm_cond(e['e'], env, lets)
     if k == 'binary' and e['op'] in ('Eq', 'Ne'):
         def val(x):
             while x.get('k') in ('ref',):
@@ -323,12 +328,26 @@ def _pm_cond(e, env):
     raise NoMatch('condition ' + str(k))
 
 
-def _pm_out(b, env):
+def _pm_out(b, env, lets=None):
+    lets = dict(lets or {})
     while b.get('k') == 'block':
-        if 'tail' in b:
+        # `let matches = <condition>;` statements ahead of the deciding statement name a condition
+        stmts = list(b.get('stmts', []))
+        while stmts and stmts[0].get('k') in ('let', 'nop'):
+            st = stmts.pop(0)
+            if st.get('k') == 'let' and st['pat'].get('k') == 'bind' and st.get('init') is not None:
+                lets[st['pat']['id']] = st['init']
+        if not stmts and 'tail' in b:
             b = b['tail']
-        elif len(b['stmts']) == 1:
-            b = b['stmts'][0]
+        elif len(stmts) == 1 and 'tail' not in b:
+            b = stmts[0]
+        elif len(stmts) == 1 and 'tail' in b and stmts[0].get('k') == 'if' and 'else' not in stmts[0]:
+            # `if c { return .. }` followed by the tail: the tail is the else
+            if _pm_cond(stmts[0]['cond'], env, lets):
+                return _pm_out(stmts[0]['then'], env, lets)
+            b = b['tail']
+        elif len(stmts) == 1 and stmts[0].get('k') == 'if' and 'else' not in stmts[0] and 'tail' not in b:
+            b = stmts[0]
         else:
             raise NoMatch('block')
     k = b.get('k')
@@ -339,9 +358,9 @@ def _pm_out(b, env):
     if k == 'continue':
         return 'continue'
     if k == 'if':
-        if _pm_cond(b['cond'], env):
-            return _pm_out(b['then'], env)
-        return _pm_out(b['else'], env) if 'else' in b else 'continue'
+        if _pm_cond(b['cond'], env, lets):
+            return _pm_out(b['then'], env, lets)
+        return _pm_out(b['else'], env, lets) if 'else' in b else 'continue'
     raise NoMatch('outcome ' + str(k))
 
 
